@@ -77,6 +77,8 @@ def e_build(j):
         return int(j["i"])
     if "f" in j:
         return float(j["f"])
+    if "by" in j:
+        return bytes(j["by"])
     if "s" in j:
         return j["s"]
     if "kw" in j:
@@ -162,6 +164,8 @@ def run(case):
             return {"cuts": cuts}
         if k == "braw":
             return b_decode_all(bytes(case["data"]))
+        if k == "blisp":
+            return b_decode_all(_f["benc"](e_build(case["v"])))
         if k == "benc":
             return {"bytes": list(_f["benc"](b_build(case["v"])))}
     except Exception as e:  # an escaping exception is an observable
